@@ -325,6 +325,9 @@ fn violation_json(v: &Violation, args: &Args) -> Json {
     for (k, val) in &args.kv {
         kv.set(k, Json::Str(val.clone()));
     }
+    if let Some(c) = args.cases {
+        kv.set("cases", Json::Str(c.to_string()));
+    }
     o.set("args", kv);
     o
 }
